@@ -1,8 +1,18 @@
 '''
 Forwarding rig (C16): one client and N pilots, every side with its own local
 control / state pubsub, all of them attached to the proxy control / state
-pubsub through the REAL `Session._crosswire_proxy` / `Session.crosswire_pubsub`
-(called on `Session.__new__` objects, `_module` = 'client' / pilot id).
+pubsub through the REAL `Session._crosswire_proxy` / `Session.crosswire_pubsub`.
+
+The sessions are created by the REAL `Session.__init__` (client: primary role,
+no cfg, RP_PILOT_ID unset; pilots: agent_0 role with the agent config the
+pilot launcher writes - uid 'agent_0', pid 'pilot.000N' - and RP_PILOT_ID set
+as bootstrap_0.sh exports it).  Only the role specific start-up
+(`_init_primary` / `_init_agent_0`: registry, proxy, components) is replaced
+by a stub which installs logger / registry stand-ins and calls the real
+`_crosswire_proxy()`.  The identity (`_module`) each side stamps on messages
+and compares origins with is therefore the one the code computes; the rig
+only reads it back (`ident`).  Deliveries are judged per *place* (the local
+pubsub of client / pilot.000N), identities are part of the trace.
 
 `ru.zmq.Publisher` / `ru.zmq.Subscriber` are replaced (mock.patch.object, only
 while the sessions wire themselves) by endpoints of an in-memory fabric: one
@@ -20,7 +30,9 @@ Ghost data (message id, hop count) travels in the fabric envelope, never in
 the payload the real code sees.
 '''
 
+import os
 import collections
+import threading as mt
 
 from unittest import mock
 
@@ -37,6 +49,8 @@ from radical.pilot                 import constants as rpc         # noqa: E402
 from radical.pilot                 import states    as rps         # noqa: E402
 from radical.pilot                 import messages  as rpm         # noqa: E402
 from radical.pilot.utils.component import AgentComponent, ClientComponent  # noqa: E402
+
+from radical.pilot.pilot_manager import PilotManager               # noqa: E402
 
 Session = rp_session.Session
 
@@ -97,6 +111,7 @@ class Fabric(object):
         self.ctx    = None                          # envelope being delivered / root
         self.outs   = None
         self.ngid   = 0
+        self.sync   = None                          # rig: real code publishes on its own
 
     def add_bridge(self, b):
         self.by_pub[b.addr_pub] = b
@@ -129,11 +144,17 @@ class FakePublisher(object):
         assert isinstance(topic, str), 'invalid topic type'
         fab = self.fab
         if fab.ctx is None:
-            raise RigError('put outside of a publish / delivery step')
+            if fab.sync is None:
+                raise RigError('put outside of a publish / delivery step')
+            # real code (Session.close, PilotManager.close) publishes by itself:
+            # one Publish step, then everything in flight is delivered
+            return fab.sync.free_publish(self, topic, msg)
         data = ru.as_bytes(topic.replace(' ', '_')) + b' ' + to_msgpack(msg)
         env  = (fab.ctx.gid, fab.ctx.hops + 1)
         fan  = 0
         for sub in self.bridge.subs:
+            if sub.stopped:
+                continue
             if not any(data.startswith(ru.as_bytes(t)) for t in sub.topics):
                 continue
             fab.queues.setdefault((self, sub), collections.deque()) \
@@ -157,6 +178,7 @@ class FakeSubscriber(object):
         self.channel, self.url = channel, url
         self.topics = [str(t).replace(' ', '_') for t in ru.as_list(topic)]
         self.cbs    = [cb] if cb else []
+        self.stopped = False
         own, self.side = fab.owner
         self.role = 'app' if own == 'app' else ('p2l' if self.bridge.scope == 'proxy' else 'l2p')
         self.bridge.subs.append(self)
@@ -167,7 +189,8 @@ class FakeSubscriber(object):
         self.topics.append(str(topic).replace(' ', '_'))
 
     def stop(self):
-        pass
+        # the listener thread ends: nothing is delivered to the callbacks anymore
+        self.stopped = True
 
 
 class _Root(object):
@@ -177,18 +200,38 @@ class _Root(object):
 
 
 # ------------------------------------------------------------------------------
+class Registry(dict):
+    '''registry client stand-in: bridge addresses of one side'''
+    def dump(self, *a, **k): pass
+    def close(self, *a, **k): pass
+
+
+SID = 'rp.session.verif.0000'
+
+
+def agent_cfg(pid, pmgr='pmgr.0000'):
+    '''agent_0 config as PMGRLaunchingComponent._prepare_pilot writes it (the
+       keys a session could possibly take its identity from)'''
+    return {'uid': 'agent_0', 'sid': SID, 'pid': pid, 'owner': pid, 'pmgr': pmgr,
+            'resource': 'local.localhost', 'nodes': 1, 'cores': 1, 'gpus': 0,
+            'pilot_sandbox': '/tmp', 'session_sandbox': '/tmp', 'resource_sandbox': '/tmp'}
+
+
 class FwdRig(object):
 
-    def __init__(self, npilots, kinds=('control', 'state'), bound=None):
+    def __init__(self, npilots, bound=None):
         global FABRIC
         self.sides  = [CLIENT] + [pilot_id(i) for i in range(npilots)]
-        self.kinds  = list(kinds)
+        self.kinds  = list(KINDS)
         self.fab    = Fabric()
         self.events = []
-        self.got    = {s: {} for s in self.sides}        # side -> gid -> count
+        self.got    = {s: {} for s in self.sides}        # place -> gid -> count
         self.pubrec = {}                                 # gid -> publish event
+        self.ident  = {}                                 # place -> Session._module
         self.sessions, self.comps, self.apps = {}, {}, {}
+        self.pmgrs  = []
         self.bound  = bound
+        self._wiring = None
 
         fab = self.fab
         self.local = {}
@@ -199,10 +242,30 @@ class FwdRig(object):
             for s in self.sides:
                 self.local[s, k] = fab.add_bridge(Bridge(loc, k, 'local', s))
 
+        rig = self
+
+        def startup(ses):
+            # stands for _init_primary / _init_agent_0: logger, registry,
+            # (client) control publisher - then the REAL crosswiring
+            side = rig._wiring
+            ses._log, ses._prof, ses._rep = rpshim.NullLog(), rpshim.NullLog(), rpshim.NullLog()
+            ses._reg      = Registry(rig._registry(side))
+            ses._cfg.path = '/tmp'
+            if ses._role == Session._PRIMARY:
+                fab.owner = ('app', side)
+                ses._reg_service = rpshim.NullLog()
+                ses._ctrl_sub    = rpshim.NullLog()
+                ses._ctrl_pub    = ru.zmq.Publisher(
+                    channel=rpc.CONTROL_PUBSUB, url=ses._reg['bridges.control_pubsub.addr_pub'])
+            fab.owner = ('fwd', side)
+            ses._crosswire_proxy()              # REAL: four crosswire_pubsub calls
+
         FABRIC = fab
         try:
             with mock.patch.object(ru.zmq, 'Publisher', FakePublisher), \
-                 mock.patch.object(ru.zmq, 'Subscriber', FakeSubscriber):
+                 mock.patch.object(ru.zmq, 'Subscriber', FakeSubscriber), \
+                 mock.patch.object(Session, '_init_primary', startup), \
+                 mock.patch.object(Session, '_init_agent_0', startup):
                 for s in self.sides:
                     self._wire_side(s)
         finally:
@@ -214,35 +277,30 @@ class FwdRig(object):
         reg = {}
         for k in KINDS:
             loc, prx = KINDS[k]
-            if k in self.kinds:
-                lb, pb = self.local[side, k], self.proxy[k]
-                reg['bridges.%s.addr_pub' % loc] = lb.addr_pub
-                reg['bridges.%s.addr_sub' % loc] = lb.addr_sub
-                reg['bridges.%s.addr_pub' % prx] = pb.addr_pub
-                reg['bridges.%s.addr_sub' % prx] = pb.addr_sub
+            lb, pb = self.local[side, k], self.proxy[k]
+            reg['bridges.%s.addr_pub' % loc] = lb.addr_pub
+            reg['bridges.%s.addr_sub' % loc] = lb.addr_sub
+            reg['bridges.%s.addr_pub' % prx] = pb.addr_pub
+            reg['bridges.%s.addr_sub' % prx] = pb.addr_sub
         return reg
 
     def _wire_side(self, side):
         fab = self.fab
 
-        # the session of this side: what crosswire_pubsub reads, nothing more
-        ses = Session.__new__(Session)
-        ses._role    = Session._PRIMARY if side == CLIENT else Session._AGENT_0
-        ses._module  = side                     # os.environ.get('RP_PILOT_ID', 'client')
-        ses._cfg     = ru.Config(from_dict={'path': '/tmp'})
-        ses._reg     = self._registry(side)
-        ses._log     = rpshim.NullLog()
-        ses._prof    = rpshim.NullLog()
-        ses._to_stop = []
-        fab.owner = ('fwd', side)
-        if set(self.kinds) == set(KINDS):
-            ses._crosswire_proxy()              # REAL: four crosswire_pubsub calls
+        # the session of this side through the REAL constructor: it computes
+        # the identity (_module) the forwarders stamp and compare
+        self._wiring = side
+        env = {k: v for k, v in os.environ.items() if k != 'RP_PILOT_ID'}
+        if side == CLIENT:
+            with mock.patch.dict(os.environ, env, clear=True):
+                ses = Session(uid=SID, _role=Session._PRIMARY)
         else:
-            for k in self.kinds:
-                loc, prx = KINDS[k]
-                ses.crosswire_pubsub(src=loc, tgt=prx, from_proxy=False)
-                ses.crosswire_pubsub(src=prx, tgt=loc, from_proxy=True)
+            env['RP_PILOT_ID'] = side           # bootstrap_0.sh: export RP_PILOT_ID="$PILOT_ID"
+            with mock.patch.dict(os.environ, env, clear=True):
+                ses = Session(uid=SID, cfg=agent_cfg(side), _role=Session._AGENT_0)
+        self._wiring = None
         self.sessions[side] = ses
+        self.ident[side]    = str(ses._module)
 
         # ordinary component of this side: real publish / advance, fabric publishers
         fab.owner = ('app', side)
@@ -257,6 +315,61 @@ class FwdRig(object):
             self.apps[side, k] = FakeSubscriber(b.channel, url=b.addr_sub, topic=b.channel,
                                                 cb=self._app_cb(side, k))
         self.comps[side] = comp
+
+    def add_pmgr(self, uid, pids):
+        '''a real PilotManager of the client session (no components; waiting
+           for pilot states is mocked): its close() publishes cancel_pilots /
+           kill_pilots through the real code'''
+        global FABRIC
+        ses  = self.sessions[CLIENT]
+        pmgr = PilotManager.__new__(PilotManager)
+        pmgr._uid, pmgr._session, pmgr._closed = uid, ses, False
+        pmgr._log, pmgr._prof, pmgr._rep = rpshim.NullLog(), rpshim.NullLog(), mock.MagicMock()
+        pmgr._cmgr        = rpshim.NullLog()
+        pmgr._pcb_lock    = mt.RLock()
+        pmgr._pilots_lock = mt.RLock()
+        pmgr._callbacks   = {}
+        pmgr._terminate   = mt.Event()
+        pmgr._term        = mt.Event()
+        pmgr._inputs      = {}
+        pmgr._subscribers = {}
+        pmgr._pilots      = {pid: mock.MagicMock() for pid in pids}
+        pmgr.wait_pilots  = mock.MagicMock()
+        pmgr.dump         = mock.MagicMock()
+        b = self.local[CLIENT, 'control']
+        FABRIC, self.fab.owner = self.fab, ('app', CLIENT)
+        try:
+            pmgr._publishers = {b.channel: FakePublisher(b.channel, url=b.addr_pub)}
+        finally:
+            FABRIC, self.fab.owner = None, None
+        ses._pmgrs[uid] = pmgr
+        self.pmgrs.append(pmgr)
+        return pmgr
+
+    def close_client(self, rng=None):
+        '''REAL Session.close(terminate=True) of the client session while all
+           pilots are connected.  What the closing code publishes is delivered
+           at once (to rest) before close() goes on - a subscriber stopped by
+           then gets nothing'''
+        self._sync_rng = rng
+        self.fab.sync  = self
+        try:
+            self.sessions[CLIENT].close(terminate=True)
+        finally:
+            self.fab.sync = None
+
+    def free_publish(self, pub, topic, msg):
+        fab = self.fab
+        fab.ngid += 1
+        gid = fab.ngid
+        fab.ctx, fab.outs = _Root(gid), []
+        try:
+            pub.put(topic, msg)
+        finally:
+            outs, fab.ctx, fab.outs = fab.outs, None, None
+        self._log_publish(pub.side, pub.bridge.kind, gid, outs, 'close')
+        if not self.drain(self._sync_rng):
+            raise RigError('messages circulate while the session closes')
 
     def _app_cb(self, side, kind):
         def cb(topic, msg):
@@ -294,6 +407,8 @@ class FwdRig(object):
         fab = self.fab
         fab.ngid += 1
         gid = fab.ngid
+        if origin == 'own':
+            origin = self.ident[side]
         msg = self._payload(gid, origin, fwd, via)
         fab.ctx, fab.outs = _Root(gid), []
         try:
@@ -324,8 +439,8 @@ class FwdRig(object):
         if len(outs) != 1:
             raise RigError('ordinary publish made %d puts' % len(outs))
         o  = outs[0]
-        ev = {'ev': 'Publish', 'side': side, 'kind': o['kind'], 'id': gid, 'via': via,
-              'origin': o['origin'], 'fwd': o['fwd'], 'fan': o['fan']}
+        ev = {'ev': 'Publish', 'side': side, 'ident': self.ident[side], 'kind': o['kind'],
+              'id': gid, 'via': via, 'origin': o['origin'], 'fwd': o['fwd'], 'fan': o['fan']}
         if o['kind'] != kind or o['scope'] != 'local':
             raise RigError('ordinary publish went to %s/%s' % (o['scope'], o['kind']))
         self.pubrec[gid] = ev
@@ -354,6 +469,12 @@ class FwdRig(object):
         env = fab.queues[link].popleft()
         topic, msg = env.decode()
         wire_o, wire_f = origin_class(msg), fwd_class(msg)
+        if sub.stopped:
+            # the subscriber was stopped with this message still on its way
+            ev = {'ev': 'Lost', 'sub': sub.role, 'side': sub.side, 'kind': sub.bridge.kind,
+                  'id': env.gid, 'hops': env.hops}
+            self.events.append(ev)
+            return ev
         fab.ctx, fab.outs = env, []
         exc = 'none'
         try:
@@ -398,14 +519,15 @@ class FwdRig(object):
         return {s: [self.got[s].get(i, 0) for i in range(1, n + 1)] for s in self.sides}
 
     def trace(self):
-        return {'sides': list(self.sides), 'nmsgs': self.fab.ngid, 'events': self.events}
+        return {'sides': list(self.sides), 'idents': [self.ident[s] for s in self.sides],
+                'nmsgs': self.fab.ngid, 'events': self.events}
 
 
 # ------------------------------------------------------------------------------
 def advance_defaults():
     '''fwd flag the real advance() of each component class publishes with when
        the caller does not say: {'client': 'false', 'agent': 'true'} expected'''
-    rig = FwdRig(1, kinds=('state',))
+    rig = FwdRig(1)
     out = {}
     for side, name in ((CLIENT, 'client'), (pilot_id(0), 'agent')):
         out[name] = rig.publish_advance(side)['fwd']
